@@ -46,6 +46,15 @@ CLAIMED = {
  "C09": dict(technique="freshness (ownership) analysis of mathlib mutator receivers over SSA, store-target analysis on verification paths, dominance of share uses by the proof check, provenance of Fiat-Shamir oracle operands, error-propagation analysis",
              text="Sound static decision of structural necessary conditions of 'verification rejects altered input and is side-effect free': mutators only on fresh objects, no stores into inputs, proof checked before the share is used, every group-element operand bound by the challenge and every equation fed by it, every inner verdict/parse error returned, BLS aggregation through the party->point table. Soundness of the pairing equations is algebra and not decided.",
              design="§4 C09"),
+ "C14": dict(technique="must-lockset analysis with critical-section identity (decide-and-store, mark+snapshot+delete, mark+sweep), calling contexts, provenance of the drained snapshot, ordering of the drain against the started mark",
+             text="Sound static decision of the atomicity and ordering conditions necessary for exactly-once, in-order hand-off across the first-send race: decision and store in one exclusive section, Send's mark/snapshot/delete in one section, mark and sweep in one section, drain of exactly the snapshot after the mark. The remaining ordering condition (drain vs. direct forwarding) is violated by the current design and recorded as a known finding. Interleavings are not enumerated.",
+             design="§4 C14"),
+ "C15": dict(technique="SSA dominance of limit guards with calling contexts, critical-section identity for counter/append and bookkeeping release, construction-site check for the logger, clock-domain inference over provenance slices, direction check of the GC guard",
+             text="Sound static decision of structural necessary conditions of boundedness and resource release: limits dominate appends and bookkeeping creation, shedding cannot fail, bookkeeping is released with every buffer deletion, no comparison mixes clock domains, the GC guard cannot disable collection. Quantitative bounds under concurrency are not decided.",
+             design="§4 C15"),
+ "C20": dict(technique="interprocedural must-lockset analysis (mutex-field abstraction, defer-aware, synchronous-callback inheritance) against a frozen guarded-by table with per-function exemptions justified by publication-ordering rules; atomic-only access; type classification of synchroniser state",
+             text="Sound static decision that every access to the guarded fields of Scheme, TBLS, TPS, Box and storedMessages holds its lock in sufficient mode, that backend Init/SetShareData happen before the handler is published, that epoch counters are accessed only atomically and that the synchroniser's shared state is sync.Map/channels. Memory outside these types is not decided.",
+             design="§4 C20"),
 }
 NOT_APPLICABLE = {
  "C08": "completeness of blind/sign/unblind/PoK is an algebraic identity over runtime group elements; no clause is visible in the shape of the code (DESIGN.md §4 C08)",
